@@ -249,7 +249,19 @@ func c07One(l rspLayer, in []byte) (string, string) {
 	if reserved {
 		return "", "lenient"
 	}
-	rv := reflect.ValueOf(lay).Elem()
+	if name, got, exp := compareFields(want, lay); name != "" {
+		return "C07/" + l.Name + "/" + name, fmt.Sprintf("decoding % x: field %s = %s, the specification's encoding means %s", in, name, got, exp)
+	}
+	return "", ""
+}
+
+// compareFields compares every field the reference defines with the
+// same-named field of the library's struct; returns the first difference.
+func compareFields(want ref.Fields, lay any) (field, got, exp string) {
+	rv := reflect.ValueOf(lay)
+	for rv.Kind() == reflect.Ptr {
+		rv = rv.Elem()
+	}
 	var names []string
 	for k := range want {
 		names = append(names, k)
@@ -258,7 +270,7 @@ func c07One(l rspLayer, in []byte) (string, string) {
 	for _, name := range names {
 		fv := rv.FieldByName(name)
 		if !fv.IsValid() {
-			return "C07/" + l.Name + "/field-missing", "the layer has no field " + name
+			return name, "<no such field>", "a field"
 		}
 		got, exp := canon(fv), canon(reflect.ValueOf(want[name]))
 		if s, ok := want[name].(string); ok {
@@ -268,10 +280,10 @@ func c07One(l rspLayer, in []byte) (string, string) {
 			}
 		}
 		if got != exp {
-			return "C07/" + l.Name + "/" + name, fmt.Sprintf("decoding % x: field %s = %s, the specification's encoding means %s", in, name, got, exp)
+			return name, got, exp
 		}
 	}
-	return "", ""
+	return "", "", ""
 }
 
 // c07Reject: malformed messages and wrappers must be rejected.
